@@ -120,7 +120,7 @@ void WorldQ::check_bounce(GMsg *b) {
     std::string txt = noted[i]->fail_text; std::string got = paras[i].size() >= head.size() ? paras[i].substr(head.size()) : "";
     std::string a1, b1; for (char c : txt) if (c != '\n' && c != '/') a1 += c; for (char c : got) if (c != '\n' && c != '/') b1 += c;
     if (noted[i]->last_verdict == 'Z') continue;   // expiry text is appended by the daemon
-    if (a1 != b1) { violate("C14.failure-text", "paragraph " + std::to_string(i + 1) + " of the bounce of msg " + std::to_string(on) + " carries \"" + printable(got, 80) + "\" for report \"" + printable(txt, 80) + "\""); return; }
+    if (a1 != b1) { violate("C14.failure-text", "paragraph " + std::to_string(i + 1) + " of the bounce of msg " + std::to_string(on) + " carries \"" + printable(got, 80) + "\" (" + std::to_string(got.size()) + " bytes) for report \"" + printable(txt, 80) + "\" (" + std::to_string(txt.size()) + " bytes)"); return; }
   }
 }
 
